@@ -14,6 +14,15 @@ CLAIMS = {
  "C10": ("Kernel-checked theorems about a Gallina transcription of module::load (LIFO work list, deps map, edge list, two-phase import handling) for every file system and any number of modules: on success every reachable module is loaded/parsed exactly once and compiled exactly once after all modules it imports; every error names a real defect of the reachable import graph (cycle incl. self import, missing import reported from its importer, unparsable module, failing compile); nothing is compiled on a load error; termination with an explicit fuel bound; the verdict cannot change under permutation of use statements; join is invariant under ./ and name/.. spellings. petgraph's toposort is a parameter with a stated contract. Tie: recording in-memory Loader around the real load, exhaustive 3-module graphs + random graphs, Locator::join vs the model's join.",
          "Trusted: Coq kernel, extraction, harness; toposort contract (topo_spec) and url::Url::join are validated at run time, not derived. K9 (two unqualified imports exporting one name make resolution depend on use order) belongs to name resolution and is reported under C08.",
          "Rocq proof (loop invariant over the loader state machine) + exhaustive/random differential loading", "DESIGN.md 7 C10"),
+ "C14": ("Kernel-checked frame theorems about a Gallina transcription of Builder::into_openapi over abstract documents (ordered member lists, opaque member values, structured components): for every base, default base and generated paths/schemas, every top-level member other than paths/components and every component section other than schemas is the base's, paths and schemas are the program's and equal those of the base-less output; the replace-all-components mutation is refuted. Tie: the extracted merge is run on the member structure of every generated base and must rebuild exactly the document the implementation emits; monitor: field-wise frame comparison on the implementation.",
+         "Trusted: Coq kernel, extraction, harness. Member values are opaque in the model (their preservation is checked on the implementation's output); what openapiv3 cannot deserialise from a base is outside the claim.",
+         "Rocq frame proof over the merge function + differential merge on generated bases", "DESIGN.md 7 C14"),
+ "C03": ("Kernel-checked theorems (any URI, any status value): the {variables} readable in an emitted path key are exactly the required path parameters, in order (under the lexer's character classes); every response key is default, a code 100-599 or 1XX-5XX (HttpStatus::try_from, NXX literals); uniqueness of operationIds is refuted on the faithful model (K6, two recorded known findings). Partial: $ref closure is carried by the evaluator-level checks and the validator here; YAML re-parse is checked on the implementation only. Tie: model vs emitter on generated URI shapes and status values; monitor O03: independent validator over documents of generated programs (every fourth with a base).",
+         "Trusted: Coq kernel, extraction, harness, the python validator. Known findings K6a/K6b (duplicate operationIds) are keyed by the two witnesses and a narrow class predicate.",
+         "Rocq proofs over URI pattern/status models + differential emission + document validator", "DESIGN.md 7 C03"),
+ "C06": ("The universal part is thin by nature (Gallina functions are deterministic): the model gives the one iterated hash collection of the compile path an explicit iteration-order oracle, refutes determinism for the pinned tree (F3, fixed) and proves the fixed emitter order-preserving and lossless on examples; scope identifiers are shown to be per-evaluation. The weight is on the tie: an inventory of every HashMap/HashSet mention and hidden-state primitive (time, randomness, statics, atomics, threads) in the compile path, regenerated from /repo on every run and compared with the committed baseline, and monitor O06: byte equality of the YAML across fresh processes, repeated in-process compilations and different compilation histories.",
+         "Trusted: Coq kernel, harness, the source scanner (regular expressions over rustfmt-formatted code). Process-level entropy is sampled, not enumerated.",
+         "Rocq oracle model + source inventory + multi-process byte comparison", "DESIGN.md 7 C06"),
 }
 m = {"version": 1, "setup_cmd": "./setup.sh",
      "hooks": {"guard": "oal_verif", "enable": "RUSTFLAGS=\"--cfg oal_verif\" (set by the driver for every build of /repo's crates; a cfg flag, no cargo feature)",
